@@ -803,6 +803,14 @@ class Interp:
             if sa[0] == "idx" and sb[0] == "len0" and st.nodes[sa[1]].invec and a.c <= b.c:
                 # idx(n) <= len0 - 1 for every pre-existing slot:  idx + ac < len0 + bc  when ac <= bc
                 return op == "Lt"
+            if sa[0] == "cnt" and sb[0] == "len0" and a.c <= b.c:
+                # ('cnt', ..) counts the distinct slots a walk has passed, the slot under its cursor not included: cnt <= len0 - 1 (loops._pigeon)
+                return op == "Lt"
+            if sa[0] == "len0" and sb[0] == "cnt":
+                if op == "Lt" and b.c <= a.c + 1:
+                    return False
+                if op == "Eq" and b.c <= a.c:
+                    return False
             if sa[0] == "len0" and sb[0] == "idx" and st.nodes[sb[1]].invec:
                 # idx <= len0 - 1:  len0 + ac < idx + bc needs bc >= ac + 2;  equality needs bc >= ac + 1
                 if op == "Lt" and b.c <= a.c + 1:
@@ -895,6 +903,49 @@ class Interp:
             return Lin(a.c + sign * b.c, a.sym, a.k + sign * b.k)
         return lin_combine(a, b, sign)
 
+    def ptr_class(self, st, v):
+        """Raw pointers the slice-layout model knows: a slot of the node vector, the start / one-past-the-end of the vector, a node of another allocation."""
+        if isinstance(v, VRef) and v.root[0] == "node" and not v.path and st.nodes[v.root[1]].invec:
+            return ("in", v.root[1])
+        if isinstance(v, VRef) and v.root[0] == "foreign":
+            return ("foreign",)
+        if isinstance(v, VOpaque) and v.tag == "nodes-ptr-start":
+            return ("start",)
+        if isinstance(v, VOpaque) and v.tag == "nodes-ptr-end":
+            return ("end",)
+        return None
+
+    def ptr_cmp(self, st, pa, pb, op):
+        """Address order of two known pointers (language guarantees: element i of a slice lives at start + i * size_of::<T>(), one-past-the-end is
+        start + len * size_of::<T>(), and a distinct allocation lies entirely below the vector's buffer or at/above its end)."""
+        flip = {"Lt": "Gt", "Gt": "Lt", "Le": "Ge", "Ge": "Le", "Eq": "Eq", "Ne": "Ne"}
+        order = {"in": 1, "foreign": 1, "start": 2, "end": 3}
+        if order[pa[0]] > order[pb[0]] or (pa[0] == "start" and pb[0] == "in"):
+            pa, pb, op = pb, pa, flip[op]
+        if pa[0] == "in" and pb[0] == "start":
+            rel = "eq" if self.cmp(st, Lin(0, ("idx", pa[1]), 1), Lin(0), "Eq") else "gt"
+        elif pa[0] == "in" and pb[0] == "end":
+            rel = "lt"
+        elif pa[0] == "foreign" and pb[0] in ("start", "end"):
+            st.bounds.setdefault(("addrf",), (1, ISIZE_MAX))
+            below = self.cmp(st, Lin(0, ("addrf",), 1), Lin(0, ("addr0",), 1), "Lt")
+            rel = "lt" if below else ("gt" if pb[0] == "start" else "ge")
+        elif pa[0] == "start" and pb[0] == "end":
+            rel = "eq" if self.cmp(st, st.len, Lin(0), "Eq") else "lt"
+        elif pa == pb and pa[0] != "foreign":
+            rel = "eq"
+        elif pa[0] == "in" and pb[0] == "in":
+            rel = "lt" if self.cmp(st, Lin(0, ("idx", pa[1]), 1), Lin(0, ("idx", pb[1]), 1), "Lt") else "gt"
+        else:
+            raise Undecided("pointer comparison %r %s %r" % (pa, op, pb))
+        table = {"lt": {"Lt": True, "Le": True, "Gt": False, "Ge": False, "Eq": False, "Ne": True},
+                 "eq": {"Lt": False, "Le": True, "Gt": False, "Ge": True, "Eq": True, "Ne": False},
+                 "gt": {"Lt": False, "Le": False, "Gt": True, "Ge": True, "Eq": False, "Ne": True},
+                 "ge": {"Lt": False, "Ge": True}}
+        if op not in table[rel]:
+            raise Undecided("pointer comparison %s of a pointer at or above %r" % (op, pb))
+        return table[rel][op]
+
     def binop(self, st, op, a, b, ty):
         if isinstance(a, VBool) and isinstance(b, VBool):
             if op == "Eq":
@@ -908,6 +959,10 @@ class Interp:
             if op == "BitXor":
                 return VBool(a.b != b.b)
             raise Undecided("bool binop " + op)
+        if op in ("Eq", "Ne", "Lt", "Le", "Gt", "Ge"):
+            pa, pb = self.ptr_class(st, a), self.ptr_class(st, b)
+            if pa is not None and pb is not None:
+                return VBool(self.ptr_cmp(st, pa, pb, op))
         if isinstance(a, VInt) and isinstance(b, VInt):
             bits, signed = a.bits, a.signed
             # slice layout: element i of the node vector lives at base + i * size_of::<Node<T>>() (language guarantee)
